@@ -135,7 +135,19 @@ def _walk(ck: Checker) -> None:
     size_name = None
     for m in metas:
         kw = {k.arg: k.value for k in m.keywords}
-        ck.require(norm(kw["nfiles"]) in {f"len({t_})" for t_ in tree_names} and isinstance(kw["size"], ast.Name), "C02.meta", bt, m, "nfiles=len(tree), size=accumulated size", f"tree meta is {norm(m)}")
+        nf = kw["nfiles"]
+        nf_txts = {norm(nf)}
+        if isinstance(nf, ast.Name):
+            # `nfiles = len(tree)` computed once and used for the Meta and the emptiness check
+            ds_ = [d for d in scope_of(bt).get(nf.id) if d.kind in ("assign", "annassign")]
+            if len(ds_) == 1 and len(scope_of(bt).get(nf.id)) == 1 and getattr(ds_[0], "value", None) is not None:
+                # ... after the tree is complete: no tree.add can follow the count
+                gb = ck.cfg(bt)
+                dn = [x for x in gb.nodes.values() if x.ast is ds_[0].node]
+                add_nodes = {x.id for x in gb.nodes.values() for c_ in calls_at(x) if is_method_call(c_, "add") and norm(c_.func.value) in tree_names}
+                if dn and not (add_nodes & set(gb.reach([dn[0].id]))):
+                    nf_txts.add(norm(ds_[0].value))
+        ck.require(bool(nf_txts & {f"len({t_})" for t_ in tree_names}) and isinstance(kw["size"], ast.Name), "C02.meta", bt, m, "nfiles=len(tree), size=accumulated size", f"tree meta is {norm(m)}")
         if isinstance(kw["size"], ast.Name):
             size_name = kw["size"].id
 
@@ -169,6 +181,41 @@ def _walk(ck: Checker) -> None:
             ck.require(bool(dg) and avoiding_path(g, r_.id, lambda x: x.id in {d.id for d in dg}, start=wh.id) is None, "C02.meta", bt, r_, "the built tree is digested before it is returned", "a freshly built tree can be returned without digest()")
 
 
+def _flow_expand(g, n, e, depth: int = 5) -> str:
+    """text of e at node n with every local that has exactly one reaching plain assignment put back (flow-sensitive)"""
+    import copy as _copy
+
+    if depth <= 0:
+        return ast.unparse(e)
+
+    class R(ast.NodeTransformer):
+        def visit_Name(self, x):
+            if not isinstance(x.ctx, ast.Load):
+                return x
+            ds = reaching_defs(g, n.id, x.id)
+            val = None
+            if len(ds) == 1 and ds[0].kind == "stmt" and isinstance(ds[0].ast, ast.Assign) and len(ds[0].ast.targets) == 1 and ds[0].id != n.id:
+                tg_, v_ = ds[0].ast.targets[0], ds[0].ast.value
+                if isinstance(tg_, ast.Name):
+                    val = v_
+                elif isinstance(tg_, (ast.Tuple, ast.List)) and isinstance(v_, (ast.Tuple, ast.List)) and len(tg_.elts) == len(v_.elts):
+                    for t2, v2 in zip(tg_.elts, v_.elts):
+                        if isinstance(t2, ast.Name) and t2.id == x.id:
+                            val = v2
+            if val is not None:
+                inner = _flow_expand(g, ds[0], val, depth - 1)
+                try:
+                    return ast.parse(inner, mode="eval").body
+                except SyntaxError:
+                    return x
+            return x
+
+    from ..inline import clean_copy
+
+    # a clean copy: norm() caches its text on the node, and a cached text copied along would hide the substitution
+    return ast.unparse(R().visit(clean_copy(e)))
+
+
 def _checkout_pair(ck: Checker) -> None:
     prog = ck.prog
     co = prog.func("hashfile.checkout", "_checkout")
@@ -182,6 +229,13 @@ def _checkout_pair(ck: Checker) -> None:
         pa = get_arg(c, cf, "path")
         ch = get_arg(c, cf, "change")
         palts = [norm(a) for a in expand1(prog, co, pa, levels=2)] if pa is not None else []
+        if pa is not None:
+            palts.append(_flow_expand(g, n, pa))
+            if isinstance(pa, ast.Name):
+                # a destination assigned in both arms of a conditional expression: each arm on its own
+                for d_ in reaching_defs(g, n.id, pa.id):
+                    if d_.kind == "stmt" and isinstance(d_.ast, ast.Assign):
+                        palts.append(_flow_expand(g, d_, d_.ast.value))
         ok = ch is not None and norm(ch) == lv and any(f"*{lv}.new.key" in p and ".join(path" in p for p in palts)
         ck.require(ok, "C02.checkout.pair", co, n, "destination is join(path, *change.new.key) of the change being checked out", f"destination {palts} is not built from the key of the change passed along ({norm(ch) if ch is not None else None})")
         it = norm(h.ast.iter) if h is not None else ""
